@@ -98,6 +98,7 @@ func runC01(c *Ctx) {
 			random    []byte
 			sni       *string
 			generic   bool
+			genericID uint16
 			removed   []uint16
 			alpn      []string
 			types     []uint16
@@ -157,9 +158,17 @@ func runC01(c *Ctx) {
 					}
 				case 2:
 					if !ex.generic && len(b.PSKIdentities) == 0 && b.ExtIndex(41) < 0 {
-						u.Extensions = append(u.Extensions, &tls.GenericExtension{Id: 0x4101, Data: gdata})
+						// an extension type the hello does not carry yet (generated specs use ids from the
+						// same private range: a second extension of a type already present would be the
+						// harness breaking the grammar, not the library)
+						gid := uint16(0x4101)
+						for b.ExtIndex(gid) >= 0 {
+							gid += 2
+						}
+						u.Extensions = append(u.Extensions, &tls.GenericExtension{Id: gid, Data: gdata})
 						ex.generic = true
-						ex.types = append(ex.types, 0x4101)
+						ex.genericID = gid
+						ex.types = append(ex.types, gid)
 						mnames = append(mnames, "append")
 					}
 				case 3:
@@ -292,7 +301,7 @@ func runC01(c *Ctx) {
 			ex.types = nt
 		}
 		if ex.generic {
-			if e, ok := h.Ext(0x4101); !ok || !bytes.Equal(e.Data, gdata) {
+			if e, ok := h.Ext(ex.genericID); !ok || !bytes.Equal(e.Data, gdata) {
 				c.Violate("edit-not-on-wire appended-extension", "%s: appended extension missing or altered", c.R.Class)
 			}
 		}
